@@ -183,6 +183,9 @@ func (z *zmodemTransfer) handleZmodemError(msg string) {
 	}
 
 	z.writeMessage(msg)
+
+	// hand the terminal back even if the server never prints anything again
+	z.resetCleanupTimer()
 }
 
 func (z *zmodemTransfer) handleServerOutput(buf []byte) bool {
